@@ -176,10 +176,11 @@ def coq_build(generators=(), timeout=3000):
                 outs = list(getattr(g, "outputs", []))
                 res["gen_errors"].append({"gen": getattr(g, "gen_name", getattr(g, "__name__", "gen")), "error": str(e)[:500], "outputs": outs})
                 for o in outs:
-                    try:
-                        os.remove(os.path.join(COQ, o))
-                    except OSError:
-                        pass
+                    for suffix in ("", "o", "ok", "os"):      # the .v and its compiled forms: dependants must stop compiling
+                        try:
+                            os.remove(os.path.join(COQ, o + suffix))
+                        except OSError:
+                            pass
         rc, out, err, _ = _run([sys.executable, os.path.join(VERIF, "tools", "mkproject.py")])
         if rc != 0:
             res["ok"] = False
@@ -328,7 +329,7 @@ def check_props_file(pid, timeout=900):
         blocks = re.split(r"(?=Closed under the global context|Axioms:|Section Variables:)", out)
         blocks = [b.strip() for b in blocks if b.strip()]
         for name, b in zip(info["theorems"], blocks):
-            info["assumptions"][name] = re.sub(r"\s+", " ", b)[:600]
+            info["assumptions"][name] = re.sub(r"\s+", " ", b)[:8000]
         info["raw_assumptions"] = out[-4000:]
     finally:
         fcntl.flock(lock, fcntl.LOCK_UN)
